@@ -129,3 +129,37 @@ claim("C01",
       "Does not decide numerical agreement of whole-energy finite differences, the local-frame derivative kernels (der_TETCILF) or "
       "the excited-state Z-vector gradient. Trusted: sympy, masked straight-line interpreter.",
       "DESIGN.md section 4, C01")
+
+claim("C04",
+      "CFG event words over the SCF drivers (sibling agreement), argument-list agreement of all Fock builds, sympy reduction of the unrestricted "
+      "one-centre terms to the restricted formulas, attribute-universe check on Molecule reads",
+      "Decides the structural reasons why solver paths agree: every driver iterates density-builder -> Fock -> energy -> the same "
+      "convergence test with identical Fock arguments and builders obtained from one factory; unrolled and in-place arms compute "
+      "the same update; the unrestricted halving is present in every driver and in the adjoint; the unrestricted one-centre and "
+      "exchange terms reduce algebraically to the restricted NDDO formulas for a closed shell; every attribute read on a Molecule "
+      "exists (a typo kills exactly one configuration).",
+      "This is the thinnest claim in the set: numerical agreement between solver configurations and monotone approach to the "
+      "limit are NOT decided; they follow from C03's convergence clauses only for a unique fixed point. Trusted: sympy, CFG.",
+      "DESIGN.md section 4, C04")
+
+claim("C06",
+      "abstract interpretation over a linearity lattice, constant folding of every literal packing table against its formula, sympy comparison of "
+      "symbolically extracted one-centre terms with the published NDDO formulas, truth tables of core-core predicates, name/position "
+      "agreement at 100+ long positional call sites",
+      "Decides the algebraic facts of the model that do not need a numerical oracle: the two-electron operator is affine in P "
+      "(response operator G homogeneous linear); all 45 literal pair-index / weight / triangle tables satisfy their defining "
+      "formulas (Coulomb permutational symmetry of the packed integrals); the one-centre two-electron terms in fock and G equal "
+      "the published formulas (independent oracle embedded in the checker); core-core special cases and Gaussian counts equal the "
+      "method definitions; no long positional call swaps same-typed arguments.",
+      "Not decided (needs an independent numerical oracle, which static analysis does not have): Slater overlap branches, multipole "
+      "two-centre integral values, rho0/rho1/rho2 values, parameter CSV contents. Trusted: sympy, embedded published formulas.",
+      "DESIGN.md section 4, C06")
+
+claim("C14",
+      "positional producer/consumer agreement of result tuples along the call chain, expression checks of the energy assembly, gap index and charge/dipole formulas",
+      "Decides that no observable is swapped or dropped between the function that computes it and the attribute that publishes it "
+      "(6 pipeline edges), that Etot/Hf/excitation/dispersion are assembled in the right order exactly once, that every gap is "
+      "e[nocc]-e[nocc-1] of its own spin block, and that charges and dipole are computed from the reported density with the "
+      "method's orbital count and the same core charges.",
+      "Does not decide numerical identities (eigenvalues of the reported Fock matrix, dipole vs charges). Trusted: alias map of names.",
+      "DESIGN.md section 4, C14")
